@@ -12,10 +12,10 @@ import (
 	"math"
 	"reflect"
 	"sort"
-	"strings"
 	"testing"
 
 	"github.com/ossrs/go-oryx-lib/amf0"
+	oe "github.com/ossrs/go-oryx-lib/errors"
 )
 
 // ---------------------------------------------------------------- AMF0 value trees
@@ -620,75 +620,10 @@ func vC03HasOptional(p *vC03Pkt) bool {
 }
 
 // ---------------------------------------------------------------- error classes
-func vC03ErrCode(err error) int {
-	s := err.Error()
-	call := false
-	skip := func() {
-		if i := strings.Index(s, ": "); i >= 0 {
-			s = s[i+2:]
-		} else {
-			s = ""
-		}
-	}
-	for n := 0; n < 8; n++ {
-		switch {
-		case strings.HasPrefix(s, "read message"):
-			return 8
-		case strings.HasPrefix(s, "decode message: "):
-			skip()
-		case strings.HasPrefix(s, "Parse AMF "):
-			skip()
-			switch {
-			case strings.HasPrefix(s, "unmarshal command name"):
-				return 3
-			case strings.HasPrefix(s, "unmarshal tid"):
-				return 4
-			case strings.HasPrefix(s, "discovery request name: No matched request"):
-				return 5
-			case strings.HasPrefix(s, "No request for"):
-				return 6
-			}
-			return 99
-		case strings.HasPrefix(s, "Unmarshal "):
-			skip()
-		case strings.HasPrefix(s, "unmarshal call: "):
-			call = true
-			skip()
-		case strings.HasPrefix(s, "Empty packet"):
-			return 1
-		case strings.HasPrefix(s, "Unknown message"):
-			return 2
-		case strings.HasPrefix(s, "unmarshal command name"):
-			return 11
-		case strings.HasPrefix(s, "unmarshal tid"):
-			return 12
-		case strings.HasPrefix(s, "unmarshal command object"), strings.HasPrefix(s, "discovery command object"):
-			return 15
-		case strings.HasPrefix(s, "unmarshal command: "):
-			return 13
-		case strings.HasPrefix(s, "unmarshal args"), strings.HasPrefix(s, "discovery args"):
-			if call {
-				return 14
-			}
-			return 17
-		case strings.HasPrefix(s, "unmarshal sid"):
-			return 19
-		case strings.HasPrefix(s, "unmarshal stream name"):
-			return 20
-		case strings.HasPrefix(s, "unmarshal stream type"):
-			return 21
-		case strings.HasPrefix(s, "Invalid command name"):
-			return 22
-		case strings.HasPrefix(s, "Invalid transaction ID"):
-			return 23
-		case strings.HasPrefix(s, "requires "):
-			return 24
-		default:
-			return 99
-		}
-	}
-	return 99
-}
+// The library reports failures as wrapped error TEXTS, which the property does not constrain.
+// Observations therefore carry no code derived from a message: a failed UnmarshalBinary /
+// DecodeMessage is (1); what else happened is observed structurally (the table afterwards,
+// which operation failed, the identity of the root cause for io.EOF / io.ErrUnexpectedEOF).
 
 // MarshalBinary with a panic turned into an error
 func vC03MarshalPk(pk Packet) (b []byte, err error, panicked bool) {
@@ -757,7 +692,7 @@ func vC03ObsPkt(pk Packet, err error, panicked bool) vSx {
 		return vPanicObs()
 	}
 	if err != nil {
-		return vErr(vC03ErrCode(err))
+		return vL(vZ(1))
 	}
 	b, merr, mpan := vC03MarshalPk(pk)
 	if mpan {
@@ -977,22 +912,14 @@ func vC03PairX(max int) (a, b *Protocol, ab, ba *bytes.Buffer) {
 	return NewProtocol(rwa), NewProtocol(rwb), ab, ba
 }
 
-// error class of ReadMessage (the chunk layer's classes, Model/RtmpChunk.v)
+// class of a ReadMessage failure by the identity of its root cause: 1 io.EOF, 2
+// io.ErrUnexpectedEOF, 98 anything else
 func vC03ReadErrCode(err error) int {
-	s := err.Error()
-	switch {
-	case strings.Contains(s, "unexpected EOF"):
-		return 2
-	case strings.Contains(s, "EOF"):
+	switch oe.Cause(err) {
+	case io.EOF:
 		return 1
-	case strings.Contains(s, "For fresh chunk"):
-		return 3
-	case strings.Contains(s, "For exists chunk"):
-		return 4
-	case strings.Contains(s, "Chunk message size"):
-		return 5
-	case strings.Contains(s, "decode message"):
-		return 6
+	case io.ErrUnexpectedEOF:
+		return 2
 	}
 	return 98
 }
@@ -1666,7 +1593,39 @@ func vC03RunExpectPacket(c vSx, res *vC03Res) {
 		res.obs = vPanicObs()
 		res.bad("no-panic", "ExpectPacket panicked")
 	case err != nil:
-		res.obs = vL(vZ(1), vI(vC03ErrCode(err)), vC03TxSx(a))
+		// which operation failed: the same traffic on a second pair of endpoints, read and
+		// decoded message by message
+		class := 1
+		a2, b2 := vC03Pair()
+		for _, s := range c.l[2].l {
+			if p, ok := vC03PktFromSx(s); ok {
+				a2.WritePacket(vC03BuildPkt(p), 1)
+			}
+		}
+		if vC03Send(b2, ms, res) {
+			for i := 0; i <= len(ms); i++ {
+				var m2 *Message
+				var rerr error
+				rp := false
+				func() {
+					defer func() {
+						if r := recover(); r != nil {
+							rp = true
+						}
+					}()
+					m2, rerr = a2.ReadMessage()
+				}()
+				if rp || rerr != nil {
+					class = 8
+					break
+				}
+				if _, derr, dp := vC03Decode(a2, m2.MessageType, m2.Payload); dp || derr != nil {
+					class = 1
+					break
+				}
+			}
+		}
+		res.obs = vL(vZ(1), vI(class), vC03TxSx(a))
 	default:
 		res.obs = vOk(vU(m.Timestamp), vC03PktSx(vC03DumpPkt(got)), vC03TxSx(a))
 	}
@@ -1755,7 +1714,7 @@ func vC03RunExpectMessage(c vSx, res *vC03Res) {
 		res.bad("no-panic", "ExpectMessage panicked")
 		return
 	case err != nil:
-		res.obs = vErr(vC03ErrCode(err))
+		res.obs = vErr(8) // ExpectMessage only reads: every failure is a failed read
 	default:
 		res.obs = vOk(vU(m.Timestamp), vI(int(m.MessageType)), vB(m.Payload))
 	}
